@@ -54,6 +54,7 @@ def run(run):
     _wire_format(run)
     _second_stage(run, F, X, dev)
     _bip32(run, F)
+    bip32_element_table(run)
 
 
 # ---------------------------------------------------------------------------
@@ -482,6 +483,124 @@ def _second_stage(run, F, X, dev):
     # v1
     V1 = P.cls("ledger.protocol_v1.HSM1ProtocolLedger")
     # the v1 validator establishes message as 32-byte hex: covered by R2
+
+
+def bip32_element_table(run, rid="R2c"):
+    """The index a path element denotes, as a decision table of BIP32Element.__init__ (shared with C01 under a prefix)."""
+    P, A = run.P, run.A
+    from sa.decide import Walker, cmp_parts, subst
+    from sa.canon import fold_consts, canon_sums
+    run.rule(rid, "Key path element: BIP32Element(spec) stores int(s) for a plain element and 2^31 + int(s) for one with a trailing quote, s being the element without "
+             "that quote; it completes only when str.isdecimal(s) holds and int(s) < 2^31; with those it always completes (no further condition can reject: any other "
+             "test is decided over the interval of the stored value); every rejection has one of these reasons or the type / non-empty test.")
+    BE = P.cls("comm.bip32.BIP32Element")
+    ei = P.method(BE, "__init__")
+    g = A.cfg(ei, BE)
+    sp = ei.params[1]
+    locs_e = set(Prov(A).defs(ei, BE)) | set(ei.params)
+    state = {"W": None}
+    H31 = 1 << 31
+
+    def resolve(e):
+        b = state["W"]._bind or {}
+        for _ in range(6):
+            names = {n.id for n in ast.walk(e) if isinstance(n, ast.Name)}
+            hit = {k: v for k, v in b.items() if k in names}
+            if not hit:
+                break
+            e = subst(e, hit)
+        return e
+
+    def canon(e):
+        try:
+            return _strip(canon_sums(norm(fold_consts(P, resolve(e), ei, BE, locals_=locs_e))))
+        except (AnalysisError, Unknown):
+            return _strip(norm(resolve(e)))
+    S_PLAIN, S_HARD = sp, f"{sp}[:-1]"
+
+    def value_form(t):
+        """-> (base, string text) for `int(S)` / `K + int(S)`"""
+        m = re.fullmatch(r"(?:(\d+) \+ )?int\((.+)\)(?: \+ (\d+))?", t)
+        if not m or (m.group(1) and m.group(3)):
+            return None
+        return int(m.group(1) or m.group(3) or 0), m.group(2)
+
+    def atom(e):
+        cp = cmp_parts(e)
+        if cp is not None:
+            l, op, r = cp
+            lt, rt = canon(l), canon(r)
+            if lt == f"type({sp})" and rt == "str" and op in ("==", "!="):
+                return ("STR", op == "==")
+            if lt == f"len({sp})" and rt in ("0", "1") and (op, rt) in (("==", "0"), ("!=", "0"), (">", "0"), (">=", "1"), ("<", "1"), ("<=", "0")):
+                return ("NONEMPTY", op in ("!=", ">", ">="))
+            if lt == f"{sp}[-1]" and isinstance(r, ast.Constant) and r.value == "'" and op in ("==", "!="):
+                return ("Q", op == "==")
+            vf = value_form(lt)
+            if vf is not None and re.fullmatch(r"-?\d+", rt) and op in ("<", "<=", ">", ">=", "==", "!="):
+                base, s_ = vf
+                k = int(rt)
+                if base == 0 and (op, k) in ((">=", H31), (">", H31 - 1), ("<", H31), ("<=", H31 - 1)):
+                    return (f"BIG {s_}", op in (">=", ">"))
+                # any other test of the value: decided over what the value can be once the element is decimal and below 2^31
+                lo, hi = base, base + H31 - 1
+                import operator
+                f = {"<": operator.lt, "<=": operator.le, ">": operator.gt, ">=": operator.ge, "==": operator.eq, "!=": operator.ne}[op]
+                a_, b_ = f(lo, k), f(hi, k)
+                mid = f(k if lo <= k <= hi else lo, k)
+                if a_ == b_ == mid:
+                    return (a_, True)
+                return (f"RANGE {lt} {op} {k}", True)
+        x = resolve(e)
+        if isinstance(x, ast.Call) and call_name(x) == "isdecimal":
+            arg = x.args[0] if (norm(x.func) == "str.isdecimal" and len(x.args) == 1) else (x.func.value if isinstance(x.func, ast.Attribute) and not x.args else None)
+            if arg is not None:
+                return (f"DEC {canon(arg)}", True)
+        return None
+    W = Walker(A, ei, BE, atom, max_leaves=512, max_steps=20000)
+    state["W"] = W
+    n_done = 0
+    n_leaves = 0
+    for lf in W.walk(g.entry):
+        n_leaves += 1
+        pc = lf.pc
+        unknown = sorted(k[1:] for k in pc if isinstance(k, str) and k.startswith("?"))
+        where = ei.loc(lf.node.ast) if lf.node.ast is not None else ei.loc()
+        if lf.kind in ("exit", "return"):
+            n_done += 1
+            stores = [(st_, v_) for k_, st_, v_ in lf.effects if k_ == "assign" and any(norm(t_) == "self._index" for t_ in st_.targets)]
+            run.check(rid, len(stores) == 1, "the element stores its index once", key="BIP32Element.__init__|stores", where=where,
+                      message=f"BIP32Element.__init__ completes with {len(stores)} stores of self._index on a path")
+            if len(stores) != 1:
+                continue
+            state["W"]._bind = lf.bind
+            vt = canon(lf.deep(stores[0][0].value))
+            vf = value_form(vt)
+            q = pc.get("Q")
+            want_s = S_HARD if q else S_PLAIN
+            want_b = H31 if q else 0
+            desc = f"trailing quote {'present' if q else 'absent'}"
+            run.check(rid, q is not None and vf == (want_b, want_s), f"[{desc}] index = {want_b} + int({want_s})", key=f"BIP32Element.__init__|value|{bool(q)}", where=where,
+                      message=f"BIP32Element.__init__, {desc}: the index stored is `{vt}`; the key path grammar gives {want_b} + int({want_s}) - the device would be "
+                              "asked to sign with, or report the key of, another path than the one requested")
+            need = [("STR", True, "the element is a str"), ("NONEMPTY", True, "it is not empty"), (f"DEC {want_s}", True, f"str.isdecimal({want_s})"),
+                    (f"BIG {want_s}", False, f"int({want_s}) < 2^31")]
+            for a_, pol, what in need:
+                run.check(rid, pc.get(a_) is pol, f"[{desc}] completes only when {what}", key=f"BIP32Element.__init__|need|{bool(q)}|{a_.split()[0]}", where=where,
+                          message=f"BIP32Element.__init__, {desc}: an element is accepted without `{what}` having been established on that path")
+            extra = sorted(k for k in pc if k.startswith("RANGE ")) + unknown
+            run.check(rid, not extra, f"[{desc}] nothing else decides", key=f"BIP32Element.__init__|extra|{bool(q)}|{';'.join(extra)[:50]}", where=where,
+                      message=f"BIP32Element.__init__, {desc}: acceptance also depends on `{'`, `'.join(extra)[:120]}`: elements of the grammar would be rejected (or the "
+                              "condition is not about the element at all)")
+        elif lf.kind == "raise":
+            q = pc.get("Q")
+            s_ = S_HARD if q else S_PLAIN
+            reasons = [pc.get("STR") is False, pc.get("NONEMPTY") is False, pc.get(f"DEC {s_}") is False, pc.get(f"BIG {s_}") is True]
+            run.check(rid, any(reasons), "every rejection has a reason of the grammar", key=f"BIP32Element.__init__|reject|{bool(q)}|{';'.join(sorted(k for k, b in pc.items()))[:60]}",
+                      where=where, message=f"BIP32Element.__init__ rejects an element on a path where it is a str, non-empty, decimal and below 2^31 (conditions met: "
+                                           f"{sorted((k, b) for k, b in pc.items())[:6]}): a valid key id would be answered -103")
+    run.floor(rid, "paths of BIP32Element.__init__", n_leaves, 5)
+    run.floor(rid, "accepting paths of BIP32Element.__init__", n_done, 2)
 
 
 def _bip32(run, F):
